@@ -32,6 +32,9 @@ def rust_pat(mid, p):
         wild = "(_)" if nargs == 1 else "(_, _)"
         if m8 == 255: inv = f"matching!({wild} if std::hint::black_box(true))"
         elif m8 == 0: inv = f"matching!({wild} if std::hint::black_box(false))"
+        elif nargs == 1 and p["dbg"] % 2 == 0:
+            # two alternatives under ONE trailing guard (the first alternative matches no argument the harness uses)
+            inv = f"matching!((a @ 200..=255) | (a) if ({m8}u64 >> *a) & 1 == 1)"
         elif nargs == 1: inv = f"matching!((a) if ({m8}u64 >> *a) & 1 == 1)"
         else: inv = f"matching!((a, _) if ({m8}u64 >> *a) & 1 == 1)"
         dbg = f"m.pat_debug(\"(p{p['dbg']})\", \"case.rs\", {p['dbg']}); " if p["dbg"] is not None else ""
